@@ -4,41 +4,73 @@ pub use methods::dispatch as pow;
 
 #[dispatch]
 mod methods {
-    use crate::CelValue;
+    use crate::{CelResult, CelValue};
+    use internal::{exp_from_f64, exp_from_i64, exp_from_u64, range_error};
 
-    fn pow(n1: i64, n2: i64) -> i64 {
-        n1.pow(n2 as u32)
+    fn pow(n1: i64, n2: i64) -> CelResult<i64> {
+        n1.checked_pow(exp_from_i64(n2)?).ok_or_else(range_error)
     }
 
-    fn pow(n1: i64, n2: u64) -> i64 {
-        n1.pow(n2 as u32)
+    fn pow(n1: i64, n2: u64) -> CelResult<i64> {
+        n1.checked_pow(exp_from_u64(n2)?).ok_or_else(range_error)
     }
 
-    fn pow(n1: i64, n2: f64) -> i64 {
-        n1.pow(n2 as u32)
+    fn pow(n1: i64, n2: f64) -> CelResult<i64> {
+        n1.checked_pow(exp_from_f64(n2)?).ok_or_else(range_error)
     }
 
-    fn pow(n1: u64, n2: i64) -> u64 {
-        n1.pow(n2 as u32)
+    fn pow(n1: u64, n2: i64) -> CelResult<u64> {
+        n1.checked_pow(exp_from_i64(n2)?).ok_or_else(range_error)
     }
 
-    fn pow(n1: u64, n2: u64) -> u64 {
-        n1.pow(n2 as u32)
+    fn pow(n1: u64, n2: u64) -> CelResult<u64> {
+        n1.checked_pow(exp_from_u64(n2)?).ok_or_else(range_error)
     }
 
-    fn pow(n1: u64, n2: f64) -> u64 {
-        n1.pow(n2 as u32)
+    fn pow(n1: u64, n2: f64) -> CelResult<u64> {
+        n1.checked_pow(exp_from_f64(n2)?).ok_or_else(range_error)
     }
 
     fn pow(n1: f64, n2: i64) -> f64 {
-        n1.powi(n2 as i32)
+        match i32::try_from(n2) {
+            Ok(e) => n1.powi(e),
+            Err(_) => n1.powf(n2 as f64),
+        }
     }
 
     fn pow(n1: f64, n2: u64) -> f64 {
-        n1.powi(n2 as i32)
+        match i32::try_from(n2) {
+            Ok(e) => n1.powi(e),
+            Err(_) => n1.powf(n2 as f64),
+        }
     }
 
     fn pow(n1: f64, n2: f64) -> f64 {
         n1.powf(n2)
+    }
+
+    mod internal {
+        use crate::{CelError, CelResult};
+
+        pub fn range_error() -> CelError {
+            CelError::value("pow() result is not representable")
+        }
+
+        // exponent of an integer power: a whole number in 0..=u32::MAX
+        pub fn exp_from_i64(n: i64) -> CelResult<u32> {
+            u32::try_from(n).map_err(|_| range_error())
+        }
+
+        pub fn exp_from_u64(n: u64) -> CelResult<u32> {
+            u32::try_from(n).map_err(|_| range_error())
+        }
+
+        pub fn exp_from_f64(n: f64) -> CelResult<u32> {
+            if n >= 0.0 && n <= u32::MAX as f64 && n.trunc() == n {
+                Ok(n as u32)
+            } else {
+                Err(range_error())
+            }
+        }
     }
 }
